@@ -70,6 +70,8 @@ def run(ctx):
     m = re.search(r"CHECKS (\d+) MISMATCHES (\d+) WFFAIL (\d+)", mlog)
     checks, mism, wff = (int(m.group(1)), int(m.group(2)), int(m.group(3))) if m else (0, -1, -1)
     m2 = re.search(r"LOADS ok (\d+) err (\d+)", mlog)
+    m3 = re.search(r"WFSKIP (\d+)", mlog)
+    m4 = re.search(r"MODELSKIP (\d+)", mlog)
     known_sigs = {k["signature"] for k in ctx.known_open}
     new_fails = [f for f in summ["fails"] if f[0] not in known_sigs]
     if (mism != 0 or wff != 0) and not new_fails:
@@ -96,6 +98,8 @@ def run(ctx):
         "model_mismatches": mism,
         "model_wf_failures": wff,
         "model_loads": {"ok": int(m2.group(1)), "err": int(m2.group(2))} if m2 else {},
+        "model_skipped_above_cost_bound": int(m4.group(1)) if m4 else 0,
+        "wfb_reevaluation_skipped_large_group_count": int(m3.group(1)) if m3 else 0,
         "property_predicate_failures": sorted(s for s, _, _ in summ["fails"]),
         "samples": summ["samples"][:3] or ["(no sample)"],
         "exhaustive": False,
@@ -111,6 +115,7 @@ def run(ctx):
     ctx.assumptions = [
         "group_count and interface_count <= 65536: the loader allocates one layout / interface per unit eagerly (inputs above the bound are skipped and counted under 'skipped-count-above-2^16')",
         "which of several failing checks is reported (Go map iteration order) is not compared, only error vs success and the loaded network",
+        "inputs whose flattened multiplexer tree exceeds 6000 signals (group count x fixed members) are judged on the Go side only: the list based model is quadratic there (count in coverage.model_skipped_above_cost_bound)",
     ]
     if ctx.tier == "thorough":
         ok, chk = vlib.coqchk(PID)
